@@ -158,6 +158,18 @@ func checkInvalid(b []byte) (msg string) {
 
 // ---- (b) Pointer algebra ----
 
+// ptrTokens splits an RFC 6901 pointer into its unescaped reference tokens.
+func ptrTokens(p string) []string {
+	if p == "" {
+		return nil
+	}
+	var out []string
+	for _, t := range strings.Split(p[1:], "/") {
+		out = append(out, strings.ReplaceAll(strings.ReplaceAll(t, "~1", "/"), "~0", "~"))
+	}
+	return out
+}
+
 func checkPointer(toks []string) string {
 	var p jsontext.Pointer
 	var want strings.Builder
@@ -299,6 +311,14 @@ func replayCase(cs Case) string {
 		return checkInvalid(cs.Input)
 	case "pointer-algebra":
 		return checkPointer(cs.Tokens)
+	case "pointer-contains":
+		if len(cs.Tokens) == 2 {
+			a, b := ptrTokens(cs.Tokens[0]), ptrTokens(cs.Tokens[1])
+			want := len(a) <= len(b) && slices.Equal(a, b[:len(a)])
+			if jsontext.Pointer(cs.Tokens[0]).Contains(jsontext.Pointer(cs.Tokens[1])) != want {
+				return fmt.Sprintf("Pointer(%q).Contains(%q) = %v, token lists say %v", cs.Tokens[0], cs.Tokens[1], !want, want)
+			}
+		}
 	case "decoder-positions":
 		return c05.CheckPositions(cs.Input, cs.Program)
 	case "encoder-positions":
@@ -343,6 +363,7 @@ func Run(r *evid.Run) {
 	escapedNames(r)
 	semantic(r)
 	semanticBefore(r)
+	midway(r)
 }
 
 func decoderPositions(r *evid.Run) {
@@ -500,6 +521,41 @@ func pointerAlgebra(r *evid.Run) {
 		}
 	}
 	rec(nil)
+	// Contains is "is a prefix of" on token lists (not on text): every pair of a pointer of <=2 tokens and one of <=3
+	ctoks := append(append([]string{}, toks...), "ab", "1", "10", "a~")
+	var short, long [][]string
+	var gen func(cur []string, max int, out *[][]string)
+	gen = func(cur []string, max int, out *[][]string) {
+		*out = append(*out, append([]string(nil), cur...))
+		if len(cur) == max {
+			return
+		}
+		for _, t := range ctoks {
+			gen(append(cur, t), max, out)
+		}
+	}
+	gen(nil, 2, &short)
+	gen(nil, 3, &long)
+	build := func(ts []string) jsontext.Pointer {
+		var sb strings.Builder
+		for _, t := range ts {
+			sb.WriteString("/" + refjson.EscapePtr(t))
+		}
+		return jsontext.Pointer(sb.String())
+	}
+	var npairs int64
+	for _, a := range short {
+		pa := build(a)
+		for _, b := range long {
+			npairs++
+			want := len(a) <= len(b) && slices.Equal(a, b[:len(a)])
+			if pb := build(b); pa.Contains(pb) != want {
+				report(r, Case{Part: "pointer-contains", Tokens: []string{string(pa), string(pb)}}, fmt.Sprintf("Pointer(%q).Contains(%q) = %v, but the token lists %q / %q say %v", pa, pb, !want, a, b, want))
+			}
+		}
+	}
+	n += npairs
+	r.Bound("(b) Contains: %d pairs (pointer of <=2 tokens, pointer of <=3 tokens) over %d tokens, among them tokens that are textual prefixes of one another: true exactly when the first token list is a prefix of the second", npairs, len(ctoks))
 	// invalid pointers must be reported invalid
 	for _, bad := range []string{"a", "/~", "/~2", "/a~", "~0"} {
 		if jsontext.Pointer(bad).IsValid() {
